@@ -80,6 +80,7 @@ type Server struct {
 	rv      int64
 	uidCtr  int
 
+	hidden    map[string]bool // resKey -> not (yet) served by discovery
 	history   []histEvent
 	hold      bool           // when true watch events are delivered only up to deliverUpTo
 	deliverTo map[string]int // resKey -> history index bound (exclusive) while hold
@@ -363,11 +364,36 @@ func (s *Server) RoundTrip(req *http.Request) (*http.Response, error) {
 	return s.serveGated(req, actor, rd, pr, body)
 }
 
+// Hide / Reveal: a resource that discovery does not serve (yet): the API group exists, the resource is not listed.
+func (s *Server) Hide(resKey string) {
+	s.mu.Lock()
+	defer s.mu.Unlock()
+	if s.hidden == nil {
+		s.hidden = map[string]bool{}
+	}
+	s.hidden[resKey] = true
+}
+
+func (s *Server) Reveal(resKey string) {
+	s.mu.Lock()
+	defer s.mu.Unlock()
+	delete(s.hidden, resKey)
+}
+
 func (s *Server) serveDiscovery(req *http.Request) (*http.Response, error) {
 	p := strings.Trim(req.URL.Path, "/")
 	groups := map[string][]ResourceDef{}
 	var order []string
+	s.mu.Lock()
+	hidden := map[string]bool{}
+	for k, v := range s.hidden {
+		hidden[k] = v
+	}
+	s.mu.Unlock()
 	for _, r := range s.resList {
+		if hidden[r.ResKey()] {
+			continue
+		}
 		gv := r.APIVersion()
 		if _, ok := groups[gv]; !ok {
 			order = append(order, gv)
